@@ -60,7 +60,8 @@ def nontrivial(prop, tr):
     if prop == "C06":
         return len(ks) >= 2
     if prop == "C10":
-        return any(ev["e"] == "reconnect" for ev in tr)
+        # routed connections (cookies are issued there); the two-connection histories are all of them in the pair configs
+        return any(ev["e"] == "tx" and ev["p"].get("k") in ("Transfer", "StoreCookie") for ev in tr)
     return True
 
 
@@ -146,6 +147,14 @@ def run(prop, tier):
             if straight and key not in seen_fan:
                 seen_fan.add(key)
                 b["fan"] = "full"
+    if not sel:
+        raise vlib.ToolError("no behaviour selected for %s (vacuous run)" % prop)
+    if prop == "C10":
+        # wall-clock dependence: two histories whose first connection spends 3.2 real seconds in discovery (the issued cookie must carry the
+        # time of issue, not the time the login started)
+        slow = [b for b in sel if b["hist"][0]["secret"] == "S" and any(ev["e"] == "tx" and ev["p"].get("k") == "StoreCookie" and ev["p"].get("key") == "auth" for ev in b["hist"][0]["obs"])]
+        for b in slow[:2]:
+            b["slow"] = True
     inp = os.path.join(wd, "behaviours.ndjson")
     outp = os.path.join(wd, "observed.ndjson")
     vlib.write_ndjson(inp, sel)
